@@ -14,6 +14,7 @@ EXPLANATION = (
     "must-on-ok summary that bottoms out at std::fs::File::sync_all/sync_data and crosses spawn_blocking/block_in_place runners. "
     "Decides this ordering structure, not the runtime bound on un-synced bytes.")
 EXPLANATION += (" " + "S9 = C13.L9 instances; S10 the only way around tokio::spawn in the worker's try_run_* functions is a branch decided by JoinHandle::is_finished.")
+EXPLANATION += (" " + 'S11 decision leaves (data and branch operands, through helpers) of should_try_fsync are one scalar argument fed by dirty_bytes at every call site, the configured limit and the fsync_in_progress load.')
 ASSUMPTIONS = ["std::fs::File::sync_all / sync_data are the only durability primitives (checked: no other fsync-like call in the call-site survey)"]
 
 
